@@ -70,36 +70,54 @@ def build():
 
 
 THM_RE = re.compile(r'^\s*(Theorem|Example)\s+([A-Za-z0-9_\']+)', re.M)
+PA_RE = re.compile(r'^\s*Print Assumptions\s+([A-Za-z0-9_\']+)\s*\.', re.M)
 
 
 def proof_leg(pid):
     """Re-check props/<pid>.v with coqc and read back Print Assumptions.
-    -> dict(ok, obligations, discharged, theorems=[{name, assumptions}], log)"""
+    Obligations: every Theorem and Example of the file.  A Theorem is discharged when the file
+    compiles and its Print Assumptions output is 'Closed under the global context' or lists only
+    axioms (which are then reported); an Example when the file compiles.
+    -> dict(ok, obligations, discharged, theorems=[{name, kind, assumptions}], log)"""
     src_path = os.path.join(COQ, 'props', pid + '.v')
-    res = dict(ok=False, obligations=0, discharged=0, theorems=[], log='', checker_cmd='')
+    res = dict(ok=False, obligations=0, discharged=0, theorems=[], log='', checker_cmd='', axioms=[])
     if not os.path.exists(src_path):
         res['log'] = 'no props file'
         return res
     src = strip_comments(open(src_path).read())
-    names = [m.group(2) for m in THM_RE.finditer(src)]
-    res['obligations'] = len(names)
-    cmd = 'cd %s && timeout 900 coqc -R model V -R proofs V -R props V -R gen V props/%s.v' % (COQ, pid)
+    decls = [(m.group(1), m.group(2)) for m in THM_RE.finditer(src)]
+    printed = [m.group(1) for m in PA_RE.finditer(src)]
+    res['obligations'] = len(decls)
+    os.makedirs(os.path.join(ROOT, 'work', 'recheck'), exist_ok=True)
+    cmd = 'cd %s && timeout 900 coqc -R model V -R proofs V -R props V -R gen V -o %s props/%s.v' % (
+        COQ, os.path.join(ROOT, 'work', 'recheck', '%s.vo' % pid), pid)
     res['checker_cmd'] = 'coq_makefile -f _CoqProject -o Makefile && make (coqc 8.16.1, full .vo build); then: ' + cmd.split('&& ', 1)[1]
     rc, out = sh(cmd, timeout=1000)
     res['log'] = out[-4000:]
     if rc != 0:
         return res
-    # Print Assumptions output follows each theorem, in order
     blocks = re.split(r'(?m)^(?=Closed under the global context|Axioms:)', out)
     blocks = [b for b in blocks if b.startswith('Closed under') or b.startswith('Axioms:')]
-    thms = []
-    for i, nm in enumerate(names):
+    amap = {}
+    for i, nm in enumerate(printed):
         a = blocks[i].strip() if i < len(blocks) else 'missing'
-        thms.append(dict(name=nm, assumptions='closed' if a.startswith('Closed') else a[:600]))
+        amap[nm] = 'closed' if a.startswith('Closed') else a[:600]
+    thms = []
+    missing = []
+    for kind, nm in decls:
+        if kind == 'Theorem':
+            a = amap.get(nm, 'missing')
+            if a == 'missing':
+                missing.append(nm)
+        else:
+            a = amap.get(nm, 'compiled (vm_compute instance)')
+        thms.append(dict(name=nm, kind=kind, assumptions=a))
     res['theorems'] = thms
-    res['discharged'] = sum(1 for t in thms if t['assumptions'] == 'closed' or t['assumptions'].startswith('Axioms:'))
+    res['discharged'] = sum(1 for t in thms if t['assumptions'] != 'missing')
     res['axioms'] = sorted({l.strip() for t in thms if t['assumptions'].startswith('Axioms:') for l in t['assumptions'].splitlines()[1:] if l.strip() and not l.startswith(' ')})
-    res['ok'] = (len(blocks) >= len(names)) and res['discharged'] == len(names) and len(names) > 0
+    res['ok'] = (not missing) and len(blocks) == len(printed) and res['discharged'] == len(decls) and len(decls) > 0
+    if missing:
+        res['log'] += '\nno Print Assumptions for: ' + ', '.join(missing)
     return res
 
 
